@@ -265,10 +265,23 @@ def run(ctx):
     gct = prog.func('marshal.genCompleteTypes')
     from ..loader import nested_by_role
     fe = nested_by_role(gct, 'find_end', 'only')
+    if fe is None:
+        # lifted out of the generator: the module-level function it calls
+        # with a pair of bracket characters as its last two arguments
+        for n_ in prog._iter_scope(gct.node):
+            if isinstance(n_, ast.Call) and isinstance(n_.func, ast.Name) \
+                    and n_.func.id in gct.module.funcs and \
+                    len(n_.args) >= 3 and all(
+                        isinstance(a_, ast.Constant) and
+                        isinstance(a_.value, str) and len(a_.value) == 1
+                        for a_ in n_.args[-2:]):
+                fe = gct.module.funcs[n_.func.id]
+                break
     sigp = ('param', gct.params()[0])
     pairs = set()
     unmatched = []
-    for p in Interp(prog, exc_edges=False).run(gct)[:1]:
+    for p in Interp(prog, exc_edges=False, no_inline=(
+            {fe.qualname} if fe is not None else ())).run(gct)[:1]:
         for ev in p.trace:
             if ev[0] != 'loop' or ev[2] != 'while':
                 continue
@@ -288,9 +301,9 @@ def run(ctx):
                         continue
                     fcalls = [c for c in bp.calls()
                               if fe is not None and c[1] == fe.qualname and
-                              len(c[3]) == 3]
+                              len(c[3]) >= 3]
                     for c in fcalls:
-                        b_, e_ = (subst_fold(a, env) for a in c[3][1:])
+                        b_, e_ = (subst_fold(a, env) for a in c[3][-2:])
                         pairs.add((b_[1] if is_const(b_) else None,
                                    e_[1] if is_const(e_) else None))
                     if ch in '({' and not fcalls:
@@ -508,7 +521,7 @@ def matcher(ctx, fe):
         ctx.ob('C19.D5', 'marshal.genCompleteTypes', 'matcher-exists', False,
                'the bracket matcher find_end is missing')
         return
-    ps = fe.params()
+    ps = fe.params()[-3:]       # (start index, opening, closing)
     b, e = ('param', ps[1]), ('param', ps[2])
     paths = Interp(prog, exc_edges=False).run(fe)
     init_ok = False
